@@ -51,13 +51,12 @@ def VLOOKUP(
         raise xlerrors.ValueExcelError(
             'col_index_num is greater than the number of cols in table_array')
 
-    table_array = table_array.set_index(0)
+    for row in table_array.values:
+        if row[0] == lookup_value:
+            return row[col_index_num - 1]
 
-    if lookup_value not in table_array.index:
-        raise xlerrors.NaExcelError(
-            '`lookup_value` not in first column of `table_array`.')
-
-    return table_array.loc[lookup_value].values[col_index_num - 2]
+    raise xlerrors.NaExcelError(
+        '`lookup_value` not in first column of `table_array`.')
 
 
 @xl.register()
